@@ -300,4 +300,69 @@ def secondsToNs (sec : Float) : Int :=
   let us := ((sec - s.toFloat) * 1000000.0).toInt64
   s.toInt * 1000000000 + us.toInt * 1000
 
+/-! ### the polled form at thread-step granularity
+
+`poll` above is "call the predicate and store the result" as one atomic step.  The real poller thread
+is not atomic: `terminate()` (or an evaluation) from another thread can fall between the call of the
+predicate and the store of its result.  This machine has one step per shared-memory action of
+`periodicEval` / `eval` / `terminate` (all three shared variables are `std::atomic<bool>` since /repo
+d45d95b8f, so steps are sequentially consistent):
+
+    while (!terminate_ && !signalThreadStop_)     -- `check`   (the inner loop's checks are the same test)
+    {   evalValue_ = fn_();                        -- `call` (the predicate runs), then `store`
+        … sleep …  }
+
+A step that is not enabled at the poller's current position is a no-op, so *every* list of steps is
+an interleaving and the poller's program order is kept by `pc`. -/
+
+inductive PPc where
+  | check      -- about to test the stop flags
+  | call       -- about to call the predicate
+  | store      -- the predicate has returned `pending`; about to write the cache
+  | done       -- the poller thread has left its loop
+deriving Repr, DecidableEq
+
+inductive PStep where
+  | check | call | store      -- poller thread
+  | terminate | eval          -- any other thread
+  | destroy                   -- signalThreadStop_ = true (destructor)
+deriving Repr, DecidableEq
+
+/-- which code is modelled: the code as it is, or the variant whose `eval` reads only the cache and
+whose `terminate` also writes the cache -/
+inductive PVariant where
+  | asCoded | cacheOnly
+deriving Repr, DecidableEq
+
+structure PState where
+  term : Bool := false        -- terminate_
+  cache : Bool := false       -- evalValue_
+  stop : Bool := false        -- signalThreadStop_
+  pc : PPc := .check
+  pending : Bool := false     -- what the in-flight predicate call returned
+  calls : Nat := 0            -- predicate invocations so far
+  req : Bool := false         -- ghost: terminate() has been requested
+  results : List (Bool × Bool) := []   -- per evaluation, newest first: (req at that moment, answer)
+deriving Repr
+
+/-- `eval()` of the polled form -/
+def PState.evalNow (v : PVariant) (s : PState) : Bool :=
+  match v with
+  | .asCoded => s.term || s.cache        -- if (terminate_) return true; return evalValue_;
+  | .cacheOnly => s.cache
+
+def PState.step (v : PVariant) (pred : Nat → Bool) (s : PState) : PStep → PState
+  | .check => if s.pc = .check then { s with pc := if s.term || s.stop then .done else .call } else s
+  | .call => if s.pc = .call then { s with pending := pred s.calls, calls := s.calls + 1, pc := .store } else s
+  | .store => if s.pc = .store then { s with cache := s.pending, pc := .check } else s
+  | .terminate =>
+    match v with
+    | .asCoded => { s with term := true, req := true }
+    | .cacheOnly => { s with term := true, cache := true, req := true }
+  | .eval => { s with results := (s.req, s.evalNow v) :: s.results }
+  | .destroy => { s with stop := true }
+
+def PState.run (v : PVariant) (pred : Nat → Bool) (s : PState) (steps : List PStep) : PState :=
+  steps.foldl (PState.step v pred) s
+
 end OmplModel.Ptc
